@@ -40,6 +40,7 @@ import (
 	"github.com/attestantio/go-eth2-client/spec/capella"
 	"github.com/attestantio/go-eth2-client/spec/deneb"
 	"github.com/attestantio/go-eth2-client/spec/phase0"
+	"github.com/attestantio/vouch/services/metrics"
 	nullmetrics "github.com/attestantio/vouch/services/metrics/null"
 	"github.com/attestantio/vouch/services/submitter/immediate"
 	"github.com/attestantio/vouch/services/submitter/multinode"
@@ -105,6 +106,9 @@ func normalise(in Input) Input {
 		in.Deaf = false
 		in.Cancelled = false
 	}
+	if in.Mode != "submit" || in.DeadlineMs > 0 {
+		in.MonMs = 0
+	}
 	for i := range in.Nodes {
 		nd := &in.Nodes[i]
 		if !nd.hasVersionEndpoint() {
@@ -148,7 +152,26 @@ type Input struct {
 	// submit, with a deadline: the caller's context carries no deadline but is cancelled by the caller
 	// at that instant (ctx.Deadline() says "none"; everything else is the same, so the Coq case is too)
 	Cancelled bool `json:"cancelled,omitempty"`
+	// submit, without a caller's deadline: every ClientOperation call of the service's client monitor
+	// takes this many fake ms (a contended metrics backend); 0 = the null monitor
+	MonMs uint64 `json:"monitor_ms,omitempty"`
 }
+
+// slowMonitor: a client monitor whose bookkeeping takes (fake) time.
+type slowMonitor struct {
+	d   time.Duration
+	rec *recorder
+}
+
+func (m slowMonitor) ClientOperation(_ string, _ string, _ bool, _ time.Duration) {
+	m.rec.mu.Lock()
+	over := m.rec.closed // the calls released when the scenario ends are not part of it
+	m.rec.mu.Unlock()
+	if !over {
+		time.Sleep(m.d)
+	}
+}
+func (slowMonitor) StrategyOperation(_ string, _ string, _ string, _ time.Duration) {}
 
 type Call struct {
 	At  uint64   `json:"at"`
@@ -607,7 +630,7 @@ func horizon(in Input) time.Duration {
 				m = o.Beh.Delay
 			}
 		}
-		total += m
+		total += m + in.MonMs
 		for _, v := range nd.Ver {
 			total += v.Delay
 		}
@@ -641,9 +664,13 @@ func runSubmit(t *testing.T, in Input) Obs {
 			name := fmt.Sprintf("node%d:5052", i)
 			mAtt[name], mProp[name], mAgg[name], mSM[name], mSC[name], mBS[name], mSS[name], mPP[name] = s, s, s, s, s, s, s, s
 		}
+		var monitor metrics.ClientMonitor = nullmetrics.New()
+		if in.MonMs > 0 {
+			monitor = slowMonitor{d: time.Duration(in.MonMs) * time.Millisecond, rec: rec}
+		}
 		svc, err := multinode.New(ctx,
 			multinode.WithLogLevel(logLevel(in)),
-			multinode.WithClientMonitor(nullmetrics.New()),
+			multinode.WithClientMonitor(monitor),
 			multinode.WithTimeout(time.Duration(in.TimeoutMs)*time.Millisecond),
 			multinode.WithProcessConcurrency(in.Conc),
 			multinode.WithAttestationsSubmitters(mAtt),
@@ -1173,6 +1200,9 @@ func term(id uint64, in Input, obs Obs) string {
 			r = App("RError", errTerm(in.Nodes[0].Default.Err))
 		}
 		body = App("CImmediate", N(uint64(in.Len)), r, List(calls), Bool(obs.Success))
+		if len(in.Nodes[0].Over) > 0 {
+			body = App("CImmediateN", nodeTerm(in.Nodes[0]), N(uint64(in.Len)), List(calls), Bool(obs.Success))
+		}
 	default:
 		nodes := make([]string, 0, len(in.Nodes))
 		for _, nd := range in.Nodes {
@@ -1213,6 +1243,9 @@ func term(id uint64, in Input, obs Obs) string {
 			cl = Some(Record("cl_deadline", N(in.DeadlineMs), "cl_deaf", Bool(in.Deaf)))
 		}
 		body = App("CSubmit", inp, cl, List(order), o)
+		if in.MonMs > 0 {
+			body = App("CSubmitMon", N(in.MonMs), inp, List(order), o)
+		}
 	}
 	return Record("c_id", N(id), "c_body", body)
 }
@@ -1588,7 +1621,29 @@ func genSubmit(r *Rand) Input {
 	}
 	genVersions(r, &in)
 	genDeadline(r, &in)
+	genMonitor(r, &in)
 	return in
+}
+
+// genMonitor: the service's client monitor takes time in ClientOperation (1 in 2 of the scenarios
+// without a caller's deadline): whatever vouch does between a node's answer and counting it takes
+// fake time here, so a caller released before the answer is counted is seen.  Drawn last.
+func genMonitor(r *Rand, in *Input) {
+	if in.DeadlineMs > 0 || !r.Chance(1, 2) {
+		return
+	}
+	T := in.TimeoutMs
+	switch r.Intn(6) {
+	case 0:
+		in.MonMs = 1
+	case 1, 2, 3:
+		in.MonMs = uint64(r.Range(2, 40))
+	case 4:
+		in.MonMs = uint64(r.Range(41, int(T)/2))
+	default:
+		in.MonMs = uint64(r.Range(int(T)/2, int(T)+50))
+	}
+	in.Tags = append(in.Tags, "monitor-slow")
 }
 
 // genDeadline: the caller's context carries a deadline of its own, different from the configured
@@ -1784,6 +1839,45 @@ func genImmediate(r *Rand) Input {
 		b.Err = genErr(r, in.Kind, c, []string{"tol", "real", "any"}[r.Intn(3)])
 	}
 	in.Nodes = []Node{{Client: c, Style: st, Default: b}}
+	// The node answers per request, by the items the request carries (1 in 2): a payload larger than
+	// any batch size a submitter might think of, answered differently for some of its items.  On the
+	// one request that carries everything the first matching override decides.
+	if in.Kind != "proposal" && r.Chance(1, 2) {
+		in.Tags = append(in.Tags, "immediate-per-request")
+		if r.Chance(3, 4) {
+			in.Len = []int{r.Range(513, 700), r.Range(1025, 1400), r.Range(129, 400), r.Range(2049, 2500)}[r.Intn(4)]
+		} else if in.Len == 0 {
+			in.Len = r.Range(2, 40)
+		}
+		nd := &in.Nodes[0]
+		rej := Beh{Delay: uint64(r.Range(0, 50)), Err: genErr(r, in.Kind, c, []string{"tol", "real", "any"}[r.Intn(3)])}
+		acc := Beh{Delay: uint64(r.Range(0, 50))}
+		item := func() uint64 {
+			switch r.Intn(4) {
+			case 0:
+				return 0
+			case 1:
+				return uint64(in.Len - 1)
+			default:
+				return uint64(r.Intn(in.Len))
+			}
+		}
+		if r.Chance(2, 3) {
+			// accepts everything but a request that carries one particular item
+			nd.Default = acc
+			nd.Over = []Override{{Item: item(), Beh: rej}}
+		} else {
+			nd.Default = rej
+			nd.Over = []Override{{Item: item(), Beh: acc}}
+		}
+		if r.Chance(1, 4) {
+			b := acc
+			if r.Bool() {
+				b = rej
+			}
+			nd.Over = append(nd.Over, Override{Item: item(), Beh: b})
+		}
+	}
 	return in
 }
 
@@ -1791,7 +1885,7 @@ func gen(r *Rand) Input {
 	switch k := r.Intn(20); {
 	case k < 2:
 		return genScatter(r)
-	case k < 3:
+	case k < 4:
 		return genImmediate(r)
 	default:
 		return genSubmit(r)
@@ -1985,7 +2079,7 @@ func TestC08(t *testing.T) {
 		return
 	}
 	col := NewCollector("C08", "Check.C08",
-		"submit scenarios: kind x 1-5 scripted nodes (accept / reject with a structured error body / slow / hang, per chunk for attestations; every method fails with the context's error once its context is finished; the version endpoint serviceInfo queries answers at once, late or never, before and after the payload is handed over) x concurrency x payload length x the caller's context (without deadline, or with one after / at / before the configured timeout, the nodes then honouring or ignoring it), run on the real multinode service in a synctest bubble; plus util.Scatter and the immediate submitter. Non-trivial = the submission passes the empty-payload guard and at least one node does something other than answer its version request at once and accept before the timeout, or the caller's context has a deadline (scatter/immediate: non-empty input); distinct by input text")
+		"submit scenarios: kind x 1-5 scripted nodes (accept / reject with a structured error body / slow / hang, per chunk for attestations; every method fails with the context's error once its context is finished; the version endpoint serviceInfo queries answers at once, late or never, before and after the payload is handed over) x concurrency x payload length x the caller's context (without deadline, or with one after / at / before the configured timeout, the nodes then honouring or ignoring it), run on the real multinode service in a synctest bubble, its client monitor answering at once or (without a caller's deadline) taking fake time in every ClientOperation call; plus util.Scatter and the immediate submitter (payloads of up to 2500 items, the node answering per request by the items it carries). Non-trivial = the submission passes the empty-payload guard and at least one node does something other than answer its version request at once and accept before the timeout, or the caller's context has a deadline (scatter/immediate: non-empty input); distinct by input text")
 	n := EnvInt("VERIF_N", 800)
 	thorough := os.Getenv("VERIF_TIER") == "thorough"
 	var ins []Input
